@@ -2,6 +2,7 @@ package main
 
 import (
 	"fmt"
+	"go/constant"
 	"go/token"
 	"go/types"
 	"sort"
@@ -306,6 +307,127 @@ func runC09(r *Run) {
 	lim.Done()
 
 	// ---- ip
+	// ---- a scratch buffer holds every value the length check lets through
+	scr := r.Rule("C09.scratch", "a setter that builds its value in a fixed-capacity scratch buffer re-slices it only to a length proved not to exceed that capacity (from the nil edge of its length check): every value within the limit is encoded, none makes the setter panic", 1)
+	{
+		n := 0
+		for _, fn := range cl.Setters {
+			if fn.Blocks == nil || !p.isLibFn(fn) {
+				continue
+			}
+			var pr *Prover
+			eachInstr(fn, func(b *ssa.BasicBlock, i int, in ssa.Instruction) {
+				sl, ok := in.(*ssa.Slice)
+				if !ok || sl.High == nil {
+					return
+				}
+				capC, okC := scratchCapOf(sl.X, 0, map[ssa.Value]bool{})
+				if !okC || capC < 0 {
+					return
+				}
+				switch sliceRoot(sl.X).(type) {
+				case *ssa.MakeSlice, *ssa.Phi, *ssa.Alloc:
+				default:
+					return
+				}
+				if hc, isC := constInt(sl.High); isC && hc <= capC {
+					return
+				}
+				if pr == nil {
+					pr = newProver(p, fn)
+					r.Analysed(fn)
+				}
+				n++
+				// the values the bound is built from (a merged slice among them is split per incoming value)
+				var extra []ssa.Value
+				var collect func(v ssa.Value, depth int)
+				collect = func(v ssa.Value, depth int) {
+					if depth > 4 || v == nil {
+						return
+					}
+					switch y := v.(type) {
+					case *ssa.BinOp:
+						collect(y.X, depth+1)
+						collect(y.Y, depth+1)
+					case *ssa.Convert:
+						collect(y.X, depth+1)
+					case *ssa.Call:
+						if isBuiltinCall(y, "len") {
+							extra = append(extra, y.Call.Args[0])
+						}
+					}
+				}
+				collect(sl.High, 0)
+				res := pr.Prove(sl, Goal{X: sl.High, YL: &lin{zeroTerm, capC}, C: 0, extra: extra})
+				if !res.OK {
+					// path by path: the slices merged into the bound read as the value they have on the path, under
+					// the branch conditions of the path (a length guard written as a disjunction, or behind a helper)
+					var linOf func(v ssa.Value, c *PathCtx, depth int) (lin, []ssa.Value, bool)
+					linOf = func(v ssa.Value, c *PathCtx, depth int) (lin, []ssa.Value, bool) {
+						if depth > 4 {
+							return lin{}, nil, false
+						}
+						if cv, isC := constInt(v); isC {
+							return lin{zeroTerm, cv}, nil, true
+						}
+						switch y := v.(type) {
+						case *ssa.BinOp:
+							if cy, isC := constInt(y.Y); isC && (y.Op == token.ADD || y.Op == token.SUB) {
+								l, ex, ok := linOf(y.X, c, depth+1)
+								if y.Op == token.SUB {
+									cy = -cy
+								}
+								l.Off += cy
+								return l, ex, ok
+							}
+						case *ssa.Call:
+							if isBuiltinCall(y, "len") {
+								rx := c.Resolve(y.Call.Args[0])
+								return pr.linLen(rx, "len"), []ssa.Value{rx}, true
+							}
+						}
+						rv := c.Resolve(v)
+						return pr.lin(rv), []ssa.Value{rv}, true
+					}
+					q := &PathQuery{P: p, Fn: fn, MaxStates: 4000}
+					reached, allOK := 0, true
+					goalTxt := res.Goal
+					q.Step = func(in2 ssa.Instruction, deferred bool, st uint64, c *PathCtx) (uint64, bool) {
+						if in2 != ssa.Instruction(sl) || deferred {
+							return st, false
+						}
+						reached++
+						l, ex, ok := linOf(sl.High, c, 0)
+						if !ok {
+							allOK = false
+							return st, true
+						}
+						r2 := pr.Prove(sl, Goal{XL: &l, YL: &lin{zeroTerm, capC}, C: 0, extra: ex, assume: c.PathConds()})
+						if !r2.OK {
+							allOK = false
+							goalTxt = r2.Goal + " on the path " + c.Witness(fn, sl)
+						}
+						return st, true
+					}
+					q.Run()
+					if reached > 0 && allOK && !q.Exhausted {
+						res.OK = true
+					} else {
+						res.Goal = goalTxt
+					}
+				}
+				scr.Instance(fnName(fn)+"|"+exprDepth(sl, 0), true, map[string]interface{}{"setter": fnName(fn), "reslice": exprDepth(sl, 0), "capacity": capC, "proved": res.OK})
+				if !res.OK {
+					scr.Violation(fn, instrPos(sl), "re-slice "+exprDepth(sl, 0)+" beyond the scratch capacity "+fmt.Sprint(capC), "cannot prove "+res.Goal+": for the longest values the length check admits the re-slice exceeds the buffer's capacity and the setter panics instead of encoding the value")
+				}
+			})
+		}
+		if n == 0 {
+			scr.Fail("scratch re-slice", "no setter re-slices a fixed-capacity scratch buffer: anchor moved")
+		}
+	}
+	scr.Done()
+
 	ip := r.Rule("C09.ip", "every path to Add in the address setters passes len(IP) == 16 (true) or len(IP) == 4 (true)", 2)
 	checkIPGuard(r, ip, addFn)
 	ip.Done()
@@ -484,6 +606,22 @@ func checkLimits(r *Run, rc *RuleCtx, cl *closures, addFn *ssa.Function) {
 					return
 				}
 				m, ok := constInt(c.Call.Args[pi])
+				if !ok {
+					// the limit looked up by a constant table function for a constant attribute type
+					if lc, isC := stripConvs(c.Call.Args[pi]).(*ssa.Call); isC && len(lc.Call.Args) == 1 {
+						if sc := lc.Call.StaticCallee(); sc != nil && p.isLibFn(sc) {
+							if a, isK := lc.Call.Args[0].(*ssa.Const); isK && a.Value != nil {
+								if res, okE := constFnEval(p, sc, a.Value); okE {
+									if cv := constant.MakeFromLiteral(res, token.INT, 0); cv.Kind() == constant.Int {
+										if iv, exact := constant.Int64Val(cv); exact {
+											m, ok = iv, true
+										}
+									}
+								}
+							}
+						}
+					}
+				}
 				if !ok {
 					return
 				}
